@@ -130,6 +130,7 @@ func validated(c *lib.Ctx) error {
 		}
 	}
 	c.Sample(progs[0])
+	c.Logf("open fds after V recording: %d", openFDs())
 	bad, err := lib.JudgeGroups(c, "TraceStatic(V)", c.SpecDir("ElvCore"), "TraceStatic", progs, 8, 10*time.Minute)
 	if err != nil {
 		return err
